@@ -1,22 +1,75 @@
 (* C12 - End to end: a chunked Annex B stream parses like its NALs parsed in isolation.
-   The end-to-end statement is a composition; the links that are theorems are listed here, the glue
-   that is only executed (the pipeline model of Model/Driver.v against AnnexBReader::accumulate with a
-   parsing handler, on generated NAL sequences x partitions x policies, also via an AVC configuration
-   record) is the correspondence check.  Not yet a theorem: segment (annexb_encode nals) = nals. *)
-From H264 Require Import Base.Prelude Model.AnnexB Model.Accum Spec.AnnexBSpec Spec.AccumSpec Spec.Escape
-     Proofs.AnnexB_sem Proofs.AnnexB_compose Proofs.C08_proofs Proofs.EscapeProofs.
+   The end-to-end statement is the composition of the layers; here it is a theorem about the models:
+   C12_delivery composes framing (C01), accumulation (C08) and the segmentation of a serialised stream
+   (segment_encode); C12_parse_view composes the chunk reader (C15) and RBSP reader (C02) under every
+   parser; C12_avcc is the configuration-record route (C09).  The pipeline model of Model/Driver.v (the
+   same composition with a parsing handler and a running context) is executed against
+   AnnexBReader::accumulate by the correspondence check on generated NAL sequences x partitions x policies. *)
+From H264 Require Import Base.Prelude Base.Bits Model.AnnexB Model.Accum Model.Source Model.Sei Model.Avcc Model.Context Model.Pps Model.Driver
+     Spec.AnnexBSpec Spec.AccumSpec Spec.Escape Spec.AvccSpec
+     Proofs.AnnexB_sem Proofs.AnnexB_compose Proofs.C08_proofs Proofs.C09_proofs Proofs.EscapeProofs Proofs.C12_frame Proofs.C12_compose.
 Local Open Scope N_scope.
 
-(* link 1 (C01): whatever the push partition, the units delivered after the final reset are the
-   start-code segmentation of the stream, each ended once *)
+(* For any sequence of NAL units (non-empty, last byte non-zero, free of 00 00 0x with x <= 2 - which is
+   what a non-zero header byte followed by an escaped RBSP gives, C12_units_ok), serialised with any
+   number of leading zero bytes before each 3-byte start code (one such zero = the 4-byte start code) and
+   no or >= 3 trailing zero bytes, pushed in ARBITRARY pieces and followed by the end of the stream: the
+   accumulator shows a handler that always answers Buffer exactly these NAL units as complete invocations -
+   each once, in order, byte-identical. *)
+Theorem C12_delivery : forall units t cs,
+  Forall (fun u => unit_ok (snd u)) units -> (t = 0%nat \/ 3 <= t)%nat ->
+  concat cs = annexb_encode units t ->
+  let '(st, k) := pushes AStart cs in
+  map inv_bytes (filter inv_complete (run_fragments acc_init [] (frs_of (k ++ snd (reset st))))) = map snd units.
+Proof. exact delivery. Qed.
+Print Assumptions C12_delivery.
+
+Theorem C12_units_ok : forall hdr p, hdr <> 0 -> p <> [] -> last p 1 <> 0 -> unit_ok (hdr :: escape p).
+Proof. exact unit_ok_escaped. Qed.
+Print Assumptions C12_units_ok.
+
+(* the segmentation link on its own *)
+Theorem C12_segment_encode : forall units t,
+  Forall (fun u => unit_ok (snd u)) units -> (t = 0%nat \/ 3 <= t)%nat ->
+  segment (annexb_encode units t) = map snd units.
+Proof. exact segment_encode. Qed.
+Print Assumptions C12_segment_encode.
+
+(* Inside the handler every parser reads the NAL through RefNal chunks (always non-empty,
+   C12_chunks_nonempty); for a NAL free of forbidden sequences the bit source and the byte source it gets
+   are those of the same NAL held in one contiguous buffer - so SPS, PPS, SEI and slice-header parsing
+   give the same result as on the NAL alone *)
+Theorem C12_parse_view : forall head tl p,
+  head <> [] -> Forall (fun ch => ch <> []) tl ->
+  unescape (skipn 1 (head ++ concat tl)) = Some p ->
+  bitsrc_of_source (SrcNal true (head :: tl)) = nal_bitsrc (head ++ concat tl) /\
+  bytesrc_of_source (SrcNal true (head :: tl)) = bytesrc_of_source (SrcNal true [head ++ concat tl]).
+Proof. exact parse_view_chunk_independent. Qed.
+Print Assumptions C12_parse_view.
+
+Theorem C12_chunks_nonempty : forall a pol bufs e,
+  Forall (fun b => b <> []) bufs ->
+  Forall (fun i => Forall (fun ch => ch <> []) (inv_chunks i)) (snd (nal_fragment a pol bufs e)).
+Proof. exact nal_fragment_chunks_ok. Qed.
+Print Assumptions C12_chunks_nonempty.
+
+(* the same parameter sets through an AVC configuration record: the context is the one obtained by
+   parsing each listed NAL alone (SPS first, in order) *)
+Theorem C12_avcc : forall h spss ppss trailing,
+  (length spss <= 31)%nat -> (length ppss <= 255)%nat -> ah_reserved3 h <= 7 ->
+  Forall nal_len_ok spss -> Forall nal_len_ok ppss -> Forall (nal_like 7) spss -> Forall (nal_like 8) ppss ->
+  create_context (build_avcc h spss ppss trailing) =
+  obind (ctx_of_sps (map ItOk spss) ctx_empty) (fun c => ctx_of_pps (map ItOk ppss) c).
+Proof. exact avcc_context. Qed.
+Print Assumptions C12_avcc.
+
+(* the links, as before *)
 Theorem C12_framing : forall cs,
   let '(st, k) := pushes AStart cs in
   feed_calls (k ++ snd (reset st)) ([], []) = (segment (concat cs), []).
 Proof. exact pushes_reset_segment. Qed.
 Print Assumptions C12_framing.
 
-(* link 2 (C08): the accumulator hands a handler that always answers Buffer exactly one complete
-   invocation per non-empty NAL, carrying the whole NAL, and nothing carries over *)
 Theorem C12_whole_nal_once : forall frs sofar,
   ends_here frs = true -> sofar ++ nal_bytes frs <> [] ->
   exists pre, spec_run sofar false [] frs =
@@ -25,8 +78,19 @@ Theorem C12_whole_nal_once : forall frs sofar,
 Proof. exact buffer_only_one_complete. Qed.
 Print Assumptions C12_whole_nal_once.
 
-(* link 3: emulation prevention makes NAL payloads free of start codes (no 00 00 00/01/02 inside), so
-   the framing layer cannot cut a NAL, and removing it gives the payload back *)
 Theorem C12_escape_clean : forall p, has_sc (escape p) = false /\ unescape (escape p) = Some p.
 Proof. intros p. split; [apply escape_no_startcode|apply unescape_escape]. Qed.
 Print Assumptions C12_escape_clean.
+
+(* non-vacuity: two units, a 4-byte and a 3-byte start code with extra leading zeros, 3 trailing zeros,
+   pushed in 1-, 2- and 5-byte pieces that cut start codes and units *)
+Example C12_ex :
+  let units := [(1%nat, [103; 66; 0; 0; 3; 1; 128]); (2%nat, [104; 206; 56; 128])] in
+  let cs := [[0]; [0; 0]; [1; 103; 66; 0]; [0]; [3; 1]; [128; 0; 0; 0; 0]; [1; 104; 206; 56; 128; 0]; [0; 0]] in
+  Forall (fun u => unit_ok (snd u)) units /\ concat cs = annexb_encode units 3 /\
+  let '(st, k) := pushes AStart cs in
+  map inv_bytes (filter inv_complete (run_fragments acc_init [] (frs_of (k ++ snd (reset st))))) = map snd units.
+Proof.
+  cbv zeta. split; [|split; [reflexivity|vm_compute; reflexivity]].
+  repeat constructor; try discriminate.
+Qed.
